@@ -217,6 +217,19 @@ func genC05(r *simrt.Rand, tier string) json.RawMessage {
 			c.Ops = append(c.Ops, W3Op{K: "wait", Ms: r.Range(100, 2500)}, W3Op{K: "restart", Node: n})
 		}
 	}
+	if r.Bool(0.12) {
+		// writes that straddle the partition groups' local snapshot (see C03): the shadow
+		// state machines tell whether a snapshot holds what the log up to its label produces
+		c.Cfg.SnapshotOffset = []int64{1, 2}[r.Intn(2)]
+		c.Cfg.Deep, c.Cfg.Burst = []int{160, 400}[r.Intn(2)], []int{0, 50}[r.Intn(2)]
+		c.Ops = append(c.Ops, W3Op{K: "heal"}, W3Op{K: "wait-tick", Ms: r.Range(100, 350)})
+		burst := genWrites(r, c.Nodes, r.Range(20, 40), 2, &ver, 1.0)
+		for i := range burst {
+			burst[i].Ms = r.Range(4, 30)
+		}
+		c.Ops = append(c.Ops, burst...)
+		c.Ops = append(c.Ops, W3Op{K: "wait", Ms: 1500})
+	}
 	if c.Nodes >= 3 && c.Replicas == 3 && r.Bool(0.25) {
 		// a replica is cut off, the others move on and compact their logs past it; when the
 		// network heals it is caught up by a snapshot - and dies at one of the durable writes
@@ -718,6 +731,33 @@ func genC03(r *simrt.Rand, tier string) json.RawMessage {
 		b, _ := json.Marshal(cc)
 		return b
 	}
+	if r.Bool(0.25) {
+		// writes that straddle the local snapshot: a burst of writes on very few ids, issued
+		// every few tens of milliseconds across the instant at which the partition groups'
+		// snapshot tickers fire; then everything restarts and recovers from snapshot + suffix
+		cc.Enumerate = false
+		cc.W3.Cfg.SnapshotOffset = []int64{1, 2}[r.Intn(2)]
+		cc.W3.Cfg.Deep, cc.W3.Cfg.Burst = []int{160, 400}[r.Intn(2)], []int{0, 50}[r.Intn(2)]
+		var ops []W3Op
+		for _, op := range c.Ops {
+			if op.K != "wait" {
+				ops = append(ops, op)
+			}
+		}
+		ops = append(ops, W3Op{K: "wait-tick", Ms: r.Range(100, 350)})
+		burst := genWrites(r, c.Nodes, r.Range(20, 40), 2, &ver, 1.0)
+		for i := range burst {
+			burst[i].Ms = r.Range(4, 30)
+		}
+		ops = append(ops, burst...)
+		ops = append(ops, W3Op{K: "wait", Ms: 1500}, W3Op{K: "crashall"}, W3Op{K: "wait", Ms: 300})
+		for i := 1; i <= c.Nodes; i++ {
+			ops = append(ops, W3Op{K: "restart", Node: i})
+		}
+		cc.W3.Ops = ops
+		b, _ := json.Marshal(cc)
+		return b
+	}
 	if r.Bool(0.35) { // sampled multi-fault variant instead of the enumeration
 		cc.Enumerate = false
 		cc.W3.Faults = true
@@ -979,7 +1019,7 @@ func init() {
 			if tier == "thorough" {
 				return 1500, 55 * time.Minute
 			}
-			return 32, 6 * time.Minute
+			return 64, 6 * time.Minute
 		},
 		Focus: func(cs json.RawMessage, v Violation) json.RawMessage {
 			var c C03Case
